@@ -28,6 +28,7 @@ CONSTANTS
   WPropose = 18
   WCommit = 55
   WApp = 15
+  LateBias = 3
   WStore = 10
 INVARIANT EmitAtDepth
 CHECK_DEADLOCK FALSE
